@@ -461,9 +461,12 @@ def run(case):
 def main():
     cases = json.load(sys.stdin)
     res = []
+    import time
     for c in cases:
+        t0 = time.process_time()
         try:
             res.append(run(c))
+            res[-1]['secs'] = round(time.process_time() - t0, 2)
         except Exception as e:
             import traceback
             res.append({'error': type(e).__name__ + ': ' + str(e)[:300], 'tb': traceback.format_exc()[-600:]})
